@@ -100,6 +100,9 @@ V_ENSURES(__CPROVER_return_value == 1 || V_OLD(zck->error_state) > 0 || zck->err
 int validate_chunk(zckChunk *idx, zck_log_type bad_checksum)
 V_REQUIRES(CHUNK_WF(idx))
 V_REQUIRES(CHUNK_HASH_WF(idx->zck))
+/* C09 call-site guard (spec/ghost.h, present only with -DVERIF_SCAN_GUARD: units/scan.c): the validity scan asks for the verdict with the descriptor just
+ * behind the chunk's last stored byte and exactly comp_length bytes fed to the running chunk hash since its initialisation */
+V_REQUIRES_SCAN((g_fpos[G_IX(idx->zck->fd)] == (g_off_t)idx->zck->data_offset + (g_off_t)idx->start + (g_off_t)idx->comp_length && idx->zck->check_chunk_hash.ctx != NULL && (g_hu_hash != &idx->zck->check_chunk_hash || g_hu_total == idx->comp_length)))
 V_ASSIGNS(idx->valid, idx->zck->check_chunk_hash.type, idx->zck->check_chunk_hash.ctx, idx->zck->error_state, g_hu_final, g_fin_val, g_fin_total, g_fin_seen, g_fin_ptr)
 V_FREES(idx->zck->check_chunk_hash.ctx)
 V_ENSURES(__CPROVER_return_value == 1 || __CPROVER_return_value == 0 || __CPROVER_return_value == -1) /*@C02.validate_chunk.ret*/
@@ -112,6 +115,7 @@ V_ENSURES((V_OLD(idx->zck->error_state) > 0 && idx->zck->check_chunk_hash.ctx ==
 V_ENSURES(__CPROVER_return_value != 0 || idx->zck->error_state > 0) /*@C12.validate_chunk.error_sets_error_state*/
 V_ENSURES(__CPROVER_return_value != 1 || idx->zck->error_state == 0) /*@C12.validate_chunk.valid_verdict_leaves_no_error*/
 V_ENSURES(&idx->zck->check_chunk_hash == g_hu_hash || (g_hu_final == V_OLD(g_hu_final) && g_fin_val == V_OLD(g_fin_val) && g_fin_total == V_OLD(g_fin_total) && g_fin_seen == V_OLD(g_fin_seen) && g_fin_ptr == V_OLD(g_fin_ptr))) /*@C02.validate_chunk.other_hash_untouched*/
+V_ENSURES(__CPROVER_return_value == 0 || idx->zck->error_state == V_OLD(idx->zck->error_state)) /*@C12.validate_chunk.verdict_keeps_state*/
 ;
 
 int validate_current_chunk(zckCtx *zck)
@@ -135,11 +139,17 @@ V_REQUIRES(__CPROVER_rw_ok(zck, sizeof(*zck)))
 V_REQUIRES(HASH_OBJ_WF(&zck->check_full_hash) && (zck->check_full_hash.type == NULL || zck->check_full_hash.type == &zck->hash_type))
 V_REQUIRES(SPEC_HASH_VALID(zck->hash_type.type) && zck->hash_type.digest_size == SPEC_DIGEST_SIZE(zck->hash_type.type))
 V_REQUIRES(zck->has_uncompressed_source != 0 || (zck->full_hash_digest != NULL && __CPROVER_r_ok(zck->full_hash_digest, zck->hash_type.digest_size)))
+/* C09 call-site guard (-DVERIF_SCAN_GUARD): the scan asks for the data verdict with the whole data section (g_scan_total bytes) read and hashed */
+V_REQUIRES_SCAN(zck->has_uncompressed_source != 0 || (g_fpos[G_IX(zck->fd)] == (g_off_t)zck->data_offset + (g_off_t)g_scan_total && zck->check_full_hash.ctx != NULL && (g_hu_hash != &zck->check_full_hash || g_hu_total == g_scan_total)))
 V_ASSIGNS(zck->check_full_hash.type, zck->check_full_hash.ctx, zck->error_state, g_hu_final, g_fin_val, g_fin_total, g_fin_seen, g_fin_ptr)
 V_FREES(zck->check_full_hash.ctx)
 V_ENSURES(__CPROVER_return_value == 1 || __CPROVER_return_value == 0 || __CPROVER_return_value == -1) /*@C02.validate_file.ret*/
 V_ENSURES(__CPROVER_return_value != 1 || zck->has_uncompressed_source != 0 || &zck->check_full_hash != g_hu_hash || (g_hu_final == V_OLD(g_hu_final) + 1 && g_fin_total == V_OLD(g_hu_total) && g_fin_seen == V_OLD(g_hu_seen))) /*@C02,C09.validate_file.verdict_is_over_everything_fed_since_init*/
 V_ENSURES(__CPROVER_return_value != 1 || zck->has_uncompressed_source != 0 || &zck->check_full_hash != g_hu_hash || !(g_k1 < (size_t)zck->hash_type.digest_size) || (zck->full_hash_digest != NULL && g_fin_val == zck->full_hash_digest[g_k1])) /*@C02,C09.validate_file.valid_only_if_every_digest_byte_equal*/
 V_ENSURES(__CPROVER_return_value != 0 || zck->error_state > 0) /*@C12.validate_file.error_sets_error_state*/
+V_ENSURES(__CPROVER_return_value != -1 || zck->has_uncompressed_source != 0 || &zck->check_full_hash != g_hu_hash || g_hu_final == V_OLD(g_hu_final) + 1) /*@C09.validate_file.mismatch_is_a_verdict_over_a_finalised_digest*/
+V_ENSURES(__CPROVER_return_value == 0 || zck->error_state == V_OLD(zck->error_state)) /*@C12.validate_file.verdict_keeps_state*/
+V_ENSURES(__CPROVER_return_value == 0 || V_OLD(zck->error_state) == 0) /*@C12.validate_file.no_verdict_on_a_context_in_error*/
+V_ENSURES(zck->has_uncompressed_source == 0 || (zck->check_full_hash.ctx == V_OLD(zck->check_full_hash.ctx) && zck->check_full_hash.type == V_OLD(zck->check_full_hash.type))) /*@C09.validate_file.uncompressed_source_leaves_the_hash_alone*/
 ;
 #endif
